@@ -34,6 +34,12 @@ pub struct MockApi {
     pub closed: Vec<u32>,
     /// outer object (resource manager) per node, consulted before `outer_object`
     pub outer_objects: BTreeMap<NodeId, GlobalAddress>,
+    /// the actor's key-value collections: (collection index, encoded key) -> encoded Option<value>; absent = None
+    pub kv: BTreeMap<(u8, Vec<u8>), Vec<u8>>,
+    pub kv_handles: Vec<(u8, Vec<u8>)>,
+    pub kv_writes: Vec<(u8, Vec<u8>, Vec<u8>)>,
+    /// methods whose call fails (a RuntimeError is returned instead of an answer)
+    pub fail_methods: std::collections::BTreeSet<String>,
 }
 
 impl MockApi {
@@ -42,6 +48,9 @@ impl MockApi {
     }
     fn pop(&mut self, receiver: &NodeId, method: &str, args: Vec<u8>) -> Result<Vec<u8>, RuntimeError> {
         self.calls.push((*receiver, method.to_string(), args));
+        if self.fail_methods.contains(method) {
+            return Err(RuntimeError::SystemError(radix_engine::errors::SystemError::NotAnObject));
+        }
         if let Some(v) = self.per_node.get(&(*receiver, method.to_string())) {
             return Ok(v.clone());
         }
@@ -76,7 +85,10 @@ impl SystemActorApi<RuntimeError> for MockApi {
         unimplemented!("MockApi::actor_get_blueprint_id")
     }
     fn actor_get_node_id(&mut self, ref_handle: ActorRefHandle) -> Result<NodeId, RuntimeError> {
-        unimplemented!("MockApi::actor_get_node_id")
+        // a fixed node per reference kind (self, outer, global, auth zone)
+        let mut b = [0x40u8 + ref_handle as u8; NodeId::LENGTH];
+        b[0] = EntityType::InternalGenericComponent as u8;
+        Ok(NodeId(b))
     }
     fn actor_is_feature_enabled( &mut self, state_handle: ActorStateHandle, feature: &str, ) -> Result<bool, RuntimeError> {
         unimplemented!("MockApi::actor_is_feature_enabled")
@@ -111,7 +123,8 @@ impl SystemActorIndexApi<RuntimeError> for MockApi {
 
 impl SystemActorKeyValueEntryApi<RuntimeError> for MockApi {
     fn actor_open_key_value_entry( &mut self, object_handle: ActorStateHandle, collection_index: CollectionIndex, key: &Vec<u8>, flags: LockFlags, ) -> Result<KeyValueEntryHandle, RuntimeError> {
-        unimplemented!("MockApi::actor_open_key_value_entry")
+        self.kv_handles.push((collection_index, key.clone()));
+        Ok((self.kv_handles.len() - 1) as u32)
     }
     fn actor_remove_key_value_entry( &mut self, object_handle: ActorStateHandle, collection_index: CollectionIndex, key: &Vec<u8>, ) -> Result<Vec<u8>, RuntimeError> {
         unimplemented!("MockApi::actor_remove_key_value_entry")
@@ -200,10 +213,17 @@ impl SystemFieldApi<RuntimeError> for MockApi {
 
 impl SystemKeyValueEntryApi<RuntimeError> for MockApi {
     fn key_value_entry_get(&mut self, handle: KeyValueEntryHandle) -> Result<Vec<u8>, RuntimeError> {
-        unimplemented!("MockApi::key_value_entry_get")
+        let k = self.kv_handles[handle as usize].clone();
+        Ok(self.kv.get(&k).cloned().unwrap_or_else(|| scrypto_encode(&Option::<()>::None).unwrap()))
     }
     fn key_value_entry_set( &mut self, handle: KeyValueEntryHandle, buffer: Vec<u8>, ) -> Result<(), RuntimeError> {
-        unimplemented!("MockApi::key_value_entry_set")
+        let k = self.kv_handles[handle as usize].clone();
+        // the stored form is the encoded Option<value>: wrap the raw value bytes as Some(..)
+        let value: ScryptoValue = scrypto_decode(&buffer).unwrap();
+        let stored = scrypto_encode(&Some(value)).unwrap();
+        self.kv_writes.push((k.0, k.1.clone(), buffer));
+        self.kv.insert(k, stored);
+        Ok(())
     }
     fn key_value_entry_remove(&mut self, handle: KeyValueEntryHandle) -> Result<Vec<u8>, RuntimeError> {
         unimplemented!("MockApi::key_value_entry_remove")
@@ -212,7 +232,7 @@ impl SystemKeyValueEntryApi<RuntimeError> for MockApi {
         unimplemented!("MockApi::key_value_entry_lock")
     }
     fn key_value_entry_close(&mut self, handle: KeyValueEntryHandle) -> Result<(), RuntimeError> {
-        unimplemented!("MockApi::key_value_entry_close")
+        Ok(())
     }
 }
 
